@@ -111,7 +111,11 @@ def replay_mcops(out, prop, tier):
         val_differs = both_ok and e.get("val") != got.get("val")
         # which property does this enumerated mismatch belong to?
         mine = False
-        if prop == "C10":
+        if prop == "C01":
+            # classic operators under the default flags: result and cost, or failure, as the reference semantics
+            classic = len(c["op"]) == 1 and c["op"][0] <= 34 and set(c["flags"]) <= {"ENABLE_SHA256_TREE"}
+            mine = classic and ((e.get("st") == "ok") != (got.get("ok") is True) or cost_differs or val_differs)
+        elif prop == "C10":
             mine = cost_differs                      # a successful call charges another cost than documented
         elif prop == "C11":
             mine = val_differs                       # value differs under (at least) one cost model
@@ -150,7 +154,7 @@ def _is_unknown_call(m):
 def check(prop, tier, seed):
     out = C.Outcome(prop)
     quick = tier == "quick"
-    if prop in ("C02", "C11", "C25"):
+    if prop in ("C01", "C02", "C11", "C25"):
         replay_mcops(out, prop, tier)
         out.evaluations = out.traces
         out.nontrivial = out.traces
